@@ -114,8 +114,8 @@ def check(model, R, tier):
         for n in ast.walk(fn.node):
             for ch in ast.iter_child_nodes(n):
                 parents[id(ch)] = n
-        for c in body_walk(fn.node):
-            if isinstance(c, ast.Call) and dotted(c.func) in ('id', 'hash'):
+        for c in ast.walk(fn.node):
+            if fn.parent is None and isinstance(c, ast.Call) and dotted(c.func) in ('id', 'hash'):
                 n_id += 1
                 p = parents.get(id(c))
                 ok = False
